@@ -194,7 +194,11 @@ def mgr_state(res):
             died.append("%s-died:%s@%s" % ("manager" if name[0] == "E" else "feeder", tname, fn))
     mdied = sorted(set(d for d in died if d.startswith("manager")))
     if mdied:
-        return ",".join(mdied)
+        dead0 = sorted(set(t["role"].rstrip("0123456789") for t in (res.sched.snapshot or [])
+                           if t.get("waits_for") and t["waits_for"].get("acquirer_alive") is False))
+        # e.g. shutdown_workers() gives up with queue.Full because the workers that should drain the call queue
+        # are blocked on a lock held by a dead process
+        return ",".join(mdied + (["blocked-on-dead:" + "+".join(dead0)] if dead0 else []))
     blocked = []
     for t in (res.sched.snapshot or []):
         if t["pid"] == 100 and t["role"] == "manager":
@@ -232,6 +236,12 @@ def mgr_state(res):
                 # thread began interpreter shutdown: the exit protocol never reached it
                 ctx.append("manager-started-at-interpreter-exit")
                 break
+    for t in (res.sched.snapshot or []):
+        if t["pid"] == 100 and t["role"] != "manager" and t["what"] == "sem" and "loky:_resize" in t["where"] \
+                and "put" in t["where"]:
+            # a shrinking _resize blocked in call_queue.put(None) on a full queue while it holds the management lock
+            ctx.append("resize-blocked-in-put")
+            break
     if any("join_executor_internals/waitpid" in b for b in blocked) and not dead:
         swept = [t for (k_, t, s_) in res.kernel.kills if k_ == 100 and s_ == 9]
         for i in res.obs.executors.values():
